@@ -7,6 +7,7 @@
  * order, and the valid baseline job submitted afterwards gives its known result. Boundary values that ARE valid
  * (min, max, every permitted IV / tag length) must be accepted and processed correctly.              */
 #include "algs.h"
+#include "ref_modes.h"
 
 #define MAXB 70000
 typedef struct {
@@ -639,6 +640,61 @@ valid_boundaries(void)
                                 }
                                 free(tmp);
                                 n_valid_ok++;
+                                /* the same valid boundary job through the other checked entry points: it must be accepted there too and
+                                 * give the same bytes (asynchronous burst; synchronous cipher / hash / AEAD burst where documented) */
+                                size_t gl = A->kind == AK_HASH ? 0 : nb;
+                                uint8_t *job_dst = malloc(gl + 1), job_tag[96];
+                                memcpy(job_dst, got, gl);
+                                memcpy(job_tag, B[1].tag, 96);
+                                int sk = 0;
+                                if (A->kind == AK_CIPHER && A->family == F_AES &&
+                                    (A->cm == IMB_CIPHER_CBC || A->cm == IMB_CIPHER_CNTR || A->cm == IMB_CIPHER_ECB || A->cm == IMB_CIPHER_CFB))
+                                        sk = 1;
+                                if (A->kind == AK_HASH && ((A->family == F_HMAC && A->sub <= REF_SHA512) || A->family == F_SHA || A->family == F_CMAC))
+                                        sk = 2;
+                                if (A->family == F_CCM)
+                                        sk = 3;
+                                for (int api = 0; api < 2; api++) {
+                                        if (api == 1 && !sk)
+                                                continue;
+                                        memcpy(B[1].src, src_before, nb + 64);
+                                        memset(B[1].dst, 0x3C, nb + 64);
+                                        memset(B[1].tag, 0x3C, 96);
+                                        memset(B[1].niv, 0x3C, 32);
+                                        static IMB_JOB SJ;
+                                        IMB_JOB *bj[2] = { &SJ, NULL };
+                                        uint32_t done = 0;
+                                        int e2 = 0;
+                                        const char *an = api == 0 ? "burst" : sk == 1 ? "cipher-burst" : sk == 2 ? "hash-burst" : "aead-burst";
+                                        if (api == 0) {
+                                                if (X_GET_NEXT_BURST(m, 1, bj) != 1)
+                                                        continue;
+                                                alg_fill(m, bj[0], &it);
+                                                imb_set_session(m, bj[0]);
+                                                done = X_SUBMIT_BURST(m, 1, bj);
+                                                e2 = imb_get_errno(m);
+                                                if (!done && !e2)
+                                                        done = X_FLUSH_BURST(m, 1, bj);
+                                        } else {
+                                                alg_fill(m, &SJ, &it);
+                                                IMB_CIPHER_DIRECTION d = g_dir ? IMB_DIR_ENCRYPT : IMB_DIR_DECRYPT;
+                                                done = sk == 1   ? IMB_SUBMIT_CIPHER_BURST(m, &SJ, 1, (IMB_CIPHER_MODE) A->cm, d, (IMB_KEY_SIZE_BYTES) A->klen)
+                                                       : sk == 2 ? IMB_SUBMIT_HASH_BURST(m, &SJ, 1, (IMB_HASH_ALG) A->ha)
+                                                                 : IMB_SUBMIT_AEAD_BURST(m, &SJ, 1, (IMB_CIPHER_MODE) A->cm, d, (IMB_KEY_SIZE_BYTES) A->klen);
+                                                e2 = imb_get_errno(m);
+                                        }
+                                        base_len = len;
+                                        if (done != 1 || bj[0]->status != IMB_STATUS_COMPLETED)
+                                                viol("valid-job-rejected", "boundary-value", an,
+                                                     "job satisfying every documented constraint (accepted by the job API) was not accepted by this entry point (x = error code)", e2);
+                                        else if (memcmp(got, job_dst, gl) || memcmp(B[1].tag, job_tag, A->family == F_PON ? 16 + 4 : 96)) /* PON: CRC half of the tag is undefined for PLI <= 4 */
+                                                viol("valid-job-wrong-output", "boundary-value", an, "entry point gave other bytes than the job API for the same valid boundary job", 0);
+                                        else
+                                                n_valid_ok++;
+                                        while (X_FLUSH(m))
+                                                ;
+                                }
+                                free(job_dst);
                         }
                         free(src_before);
                 }
